@@ -278,3 +278,116 @@ Example ex_chk_rejects :
   chk (0%nat, []) [PLoop; PAdd; PAdd; PBreak 0; PRemove; PLoopEnd; PRemove] = None
   /\ chk (0%nat, []) [PLoop; PAdd; PAdd; PBreak 1; PRemove; PLoopEnd; PRemove] = Some (0%nat, []).
 Proof. vm_compute. split; reflexivity. Qed.
+
+(* ---------------------------------------------------------------- code with macro calls = code of the hand-expanded program
+   Proofs/MacroGenExpand.v.  expand_all expander special fuel c f = the hand expansion of f: every
+   macro call in a position the generator compiles is replaced by its expansion, recursively, in
+   exactly the sub-forms gen recurses into (same dispatch order: a special-form name wins over a
+   macro of the same name; the argument forms of a call are expanded only where they are compiled
+   into this code, i.e. in a self tail call -- which is why the context c is threaded). *)
+Require Import ZV.Proofs.MacroGenExpand.
+
+(* more fuel never changes a result of the generator *)
+Theorem gen_fuel_mono : forall expander special n m c f code,
+    gen expander special n c f = Some code -> (n <= m)%nat ->
+    gen expander special m c f = Some code.
+Proof. exact MacroGenExpand.gen_fuel_mono. Qed.
+Print Assumptions gen_fuel_mono.
+
+Theorem gen_begin_fuel_mono : forall expander special n m c l code,
+    gen_begin (gen expander special n) c l = Some code -> (n <= m)%nat ->
+    gen_begin (gen expander special m) c l = Some code.
+Proof. exact MacroGenExpand.gen_begin_fuel_mono. Qed.
+Print Assumptions gen_begin_fuel_mono.
+
+Theorem gen_all_fuel_mono : forall expander special n m c l code,
+    gen_all (gen expander special n) c l = Some code -> (n <= m)%nat ->
+    gen_all (gen expander special m) c l = Some code.
+Proof. exact MacroGenExpand.gen_all_fuel_mono. Qed.
+Print Assumptions gen_all_fuel_mono.
+
+Theorem gen_cond_fuel_mono : forall expander special n m c l code,
+    gen_cond (gen expander special n) c l = Some code -> (n <= m)%nat ->
+    gen_cond (gen expander special m) c l = Some code.
+Proof. exact MacroGenExpand.gen_cond_fuel_mono. Qed.
+Print Assumptions gen_cond_fuel_mono.
+
+(* single level: if the expansion of a macro call compiles to code, so does the call (any larger fuel) *)
+Theorem macro_call_code : forall expander special n c s args ex e code,
+    Z.eqb s sym_begin = false -> (Z.eqb s sym_let || Z.eqb s sym_letseq) = false ->
+    Z.eqb s sym_newscope = false -> Z.eqb s sym_for = false -> Z.eqb s sym_break = false ->
+    Z.eqb s sym_continue = false -> Z.eqb s sym_cond = false ->
+    (Z.eqb s sym_def || Z.eqb s sym_set) = false -> special s = false ->
+    expander s = Some ex -> ex args = Some e ->
+    gen expander special n c e = Some code ->
+    forall m, (n < m)%nat -> gen expander special m c (VList (VSym s :: args)) = Some code.
+Proof. exact MacroGenExpand.macro_call_code. Qed.
+Print Assumptions macro_call_code.
+
+(* THE THEOREM, for every generator context c, any macro table, macro calls nested to any depth and
+   expansions that call further macros: the code of a form with macro calls is the code of its hand
+   expansion compiled with NO macro defined.  No side condition (a name that is both a special form
+   and a macro is a special form for gen and for expand_all alike; expanders are pure functions of
+   the argument forms in this model, so an expansion cannot define a macro). *)
+Theorem macro_program_is_expanded_program : forall expander special k n c f f' code,
+    expand_all expander special k c f = Some f' ->
+    gen expander special n c f = Some code ->
+    exists m, gen (fun _ => None) special m c f' = Some code.
+Proof. exact MacroGenExpand.macro_program_is_expanded_program. Qed.
+Print Assumptions macro_program_is_expanded_program.
+
+(* sharper: the same fuel suffices *)
+Theorem macro_program_is_expanded_program_same_fuel : forall expander special k n c f f' code,
+    expand_all expander special k c f = Some f' ->
+    gen expander special n c f = Some code ->
+    gen (fun _ => None) special n c f' = Some code.
+Proof. exact MacroGenExpand.macro_program_is_expanded_program_same_fuel. Qed.
+Print Assumptions macro_program_is_expanded_program_same_fuel.
+
+(* the premise is never the obstacle: every form the generator compiles HAS a hand expansion *)
+Theorem macro_program_has_expanded_program : forall expander special n c f code,
+    gen expander special n c f = Some code ->
+    exists f', expand_all expander special n c f = Some f' /\
+               gen (fun _ => None) special n c f' = Some code.
+Proof. exact MacroGenExpand.macro_program_has_expanded_program. Qed.
+Print Assumptions macro_program_has_expanded_program.
+
+(* function bodies (GenerateFn compiles the body forms with GenerateBegin) *)
+Theorem fn_body_has_expanded_body : forall expander special n c body code,
+    gen_begin (gen expander special n) c body = Some code ->
+    exists body', exp_begin (expand_all expander special n) c body = Some body' /\
+                  gen_begin (gen (fun _ => None) special n) c body' = Some code.
+Proof. exact MacroGenExpand.fn_body_has_expanded_body. Qed.
+Print Assumptions fn_body_has_expanded_body.
+
+(* non-vacuity: (defmac brk0 [] ^(break)) (defmac wrap1 [x] ^(let [t 1] ~x));
+   (defn f [a b] (let [q 0] (for [0 1 2] (wrap1 (wrap1 (brk0))))) (f a b)) -- a macro call nested two
+   deep inside a for inside a let.  Its hand expansion is
+   (let [q 0] (for [0 1 2] (let [t 1] (let [t 1] (break))))) (f a b); both compile to
+   A L A A A Break{2} R R E R R, tail call -- the second with the EMPTY macro table; the unexpanded
+   body with the empty table compiles to something else (a CallExpr of wrap1). *)
+Definition ex_ms : list tmacro :=
+  [(100, ([], VList [VSym sym_break]));
+   (101, ([102], VList [VSym sym_let; VArr [VSym 103; VInt 1]; VList [VSym sym_unquote; VSym 102]]))].
+Definition ex_body : list value :=
+  [VList [VSym sym_let; VArr [VSym 106; VInt 0];
+          VList [VSym sym_for; VArr [VInt 0; VInt 1; VInt 2];
+                 VList [VSym 101; VList [VSym 101; VList [VSym 100]]]]];
+   VList [VSym 200; VSym 104; VSym 105]].
+Definition ex_body_expanded : list value :=
+  [VList [VSym sym_let; VArr [VSym 106; VInt 0];
+          VList [VSym sym_for; VArr [VInt 0; VInt 1; VInt 2];
+                 VList [VSym sym_let; VArr [VSym 103; VInt 1];
+                        VList [VSym sym_let; VArr [VSym 103; VInt 1]; VList [VSym sym_break]]]]];
+   VList [VSym 200; VSym 104; VSym 105]].
+Definition ex_code : list pinstr :=
+  [PAdd; PLoop; PAdd; PAdd; PAdd; PBreak 2; PRemove; PRemove; PLoopEnd; PRemove; PRemove; PTail 1 2].
+
+Example ex_expanded_program :
+  exp_begin (expand_all (expander_of ex_ms) (fun _ => false) 50) (fn_ctx 200 2) ex_body
+    = Some ex_body_expanded
+  /\ gen_fn 50 ex_ms (fun _ => false) 200 2 ex_body = Some ex_code
+  /\ gen_fn 50 [] (fun _ => false) 200 2 ex_body_expanded = Some ex_code
+  /\ gen_fn 50 [] (fun _ => false) 200 2 ex_body
+     = Some [PAdd; PLoop; PAdd; PCall 101 1; PLoopEnd; PRemove; PRemove; PTail 1 2].
+Proof. vm_compute. repeat split; reflexivity. Qed.
